@@ -69,7 +69,12 @@ func c16Config(t *rapid.T, p *Profile) WorldConfig {
 			defs = append(defs, ResDef{Name: name, Type: "model", Model: m})
 		}
 	}
-	defs = append(defs, ResDef{Name: "t.m", Type: "model", Missing: true},
+	missing := ResDef{Name: "t.m", Type: "model", Missing: true}
+	if rapid.Bool().Draw(t, "customerr") {
+		missing.ErrMsg = rapid.SampledFrom([]string{"Gone \"for\" good", "Not found", "é"}).Draw(t, "errmsg")
+		missing.ErrData = rapid.SampledFrom([]string{"", `{"id":2}`, `[1,"x"]`, `"s"`}).Draw(t, "errdata")
+	}
+	defs = append(defs, missing,
 		// query variants of one name referencing each other (pagination): each is a
 		// resource of its own for cycle cutting
 		ResDef{Name: "t.q", Type: "model", Model: map[string]Val{"x": Prim("1"), "back": Ref("t.r0"),
@@ -98,11 +103,18 @@ func refRender(svc *Service, rid string, path []string, flat, root bool) interfa
 		return map[string]interface{}{"$href": rid, kind: content}
 	}
 	if d == nil || d.Missing {
-		return wrap("error", map[string]interface{}{"$error": "system.notFound"})
+		e := map[string]interface{}{"$error": "system.notFound", "message": "E"}
+		if d != nil && (d.ErrMsg != "" || d.ErrData != "") {
+			e["message"] = d.ErrMsg
+			if d.ErrData != "" {
+				e["data"] = mustParse(d.ErrData)
+			}
+		}
+		return wrap("error", e)
 	}
 	norm, ok := d.Norm(q)
 	if !ok {
-		return wrap("error", map[string]interface{}{"$error": "system.invalidQuery"})
+		return wrap("error", map[string]interface{}{"$error": "system.invalidQuery", "message": "E"})
 	}
 	v := svc.variant(d, name, norm)
 	path = append(path, rid)
@@ -156,7 +168,7 @@ func normaliseRendered(v interface{}, api string, bad *[]string) interface{} {
 			return out
 		}
 		if code, ok := x["code"].(string); ok && strings.HasPrefix(code, "system.") && x["message"] != nil && len(x) <= 3 {
-			return map[string]interface{}{"$error": code}
+			return normaliseErr(x)
 		}
 		out := map[string]interface{}{}
 		for k, val := range x {
@@ -176,7 +188,12 @@ func normaliseRendered(v interface{}, api string, bad *[]string) interface{} {
 func normaliseErr(v interface{}) interface{} {
 	if m, ok := v.(map[string]interface{}); ok {
 		if code, ok := m["code"].(string); ok {
-			return map[string]interface{}{"$error": code}
+			// a failed reference is rendered as the service's error: code, message and data
+			out := map[string]interface{}{"$error": code, "message": m["message"]}
+			if d, has := m["data"]; has {
+				out["data"] = d
+			}
+			return out
 		}
 	}
 	return v
